@@ -300,6 +300,13 @@ func (s *Server) manifestPut(repoStr, arg string) http.HandlerFunc {
 				s.log.Debug("failed to parse image manifest", "repo", repoStr, "arg", arg, "mediaType", mt, "err", err)
 				return
 			}
+			// the media type named by the body must be the one the manifest is pushed and later served as
+			if m.MediaType != "" && m.MediaType != mt {
+				w.WriteHeader(http.StatusBadRequest)
+				_ = types.ErrRespJSON(w, types.ErrInfoManifestInvalid("media type "+mt+" does not match manifest content: "+m.MediaType))
+				s.log.Debug("media type mismatch", "repo", repoStr, "arg", arg, "mediaType", mt, "content", m.MediaType)
+				return
+			}
 			// validate image blobs exist
 			eList := s.manifestVerifyImage(repo, m)
 			if eList != nil {
@@ -328,6 +335,13 @@ func (s *Server) manifestPut(repoStr, arg string) http.HandlerFunc {
 				w.WriteHeader(http.StatusBadRequest)
 				_ = types.ErrRespJSON(w, types.ErrInfoManifestInvalid("manifest could not be parsed"))
 				s.log.Debug("failed to parse image manifest", "repo", repoStr, "arg", arg, "mediaType", mt, "err", err)
+				return
+			}
+			// the media type named by the body must be the one the manifest is pushed and later served as
+			if m.MediaType != "" && m.MediaType != mt {
+				w.WriteHeader(http.StatusBadRequest)
+				_ = types.ErrRespJSON(w, types.ErrInfoManifestInvalid("media type "+mt+" does not match manifest content: "+m.MediaType))
+				s.log.Debug("media type mismatch", "repo", repoStr, "arg", arg, "mediaType", mt, "content", m.MediaType)
 				return
 			}
 			addOpts = append(addOpts, types.IndexWithChildren(m.Manifests))
